@@ -671,3 +671,11 @@ mod test {
         x.read(size, true).map(|chunk| chunk.bytes)
     }
 }
+
+#[cfg(feature = "verif-hooks")]
+impl Assembler {
+    /// (buffered, allocated)
+    pub(super) fn verif_buffered(&self) -> (usize, usize) {
+        (self.buffered, self.allocated)
+    }
+}
